@@ -228,8 +228,9 @@ pub fn generate_c10(thorough: bool, seed: u64, _part: (usize, usize), em: &mut E
             // boundary data lengths occasionally (large rectangles need the long fast-path form)
             if g.r.chance(1, 40) { let bl = *g.r.pick(&[8000usize, 16000, 32000]); let big = Rect { l: 0, t: 0, r: 63, b: 63, w: 64, h: 64, bpp: 16, flags: 0x401, data: g.r.bytes(bl) }; payload = refsrv::fp_bitmap_update(&[big]); }
             if payload.len() + 3 > 0x7fff { payload.truncate(1000); }
-            ops.push(format!("F{}:{}", g.r.below(4), hex(&payload)));
+            ops.push(format!("F{}:{}", g.r.below(4), hex(&payload))); hist0.push("FP".into());
+            if g.r.chance(1, 6) { let wl = *g.r.pick(&[6u64, 7, 8, 0, 1, 2, 3, 5]); let (o, h) = g.letter(wl); ops.push(o); hist0.push(h); }
         }
-        emit(em, 1004, 800, 600, 0x409, "rdp-rs", &ops, None);
+        emit(em, 1004, 800, 600, 0x409, "rdp-rs", &ops, Some(&hist0));
     }
 }
